@@ -377,6 +377,47 @@ theorem eqe2eci_radius (sma h k p q : Rat) (retro : Bool) (n beta cF sF : Rat)
     + (2 * cF * h * k * sF * sma ^ 2 + h ^ 2 * sF ^ 2 * sma ^ 2 - h ^ 2 * sma ^ 2 - k ^ 2 * sF ^ 2 * sma ^ 2) * hb3
     + (-2 * b * cF * h * k * sF * sma ^ 2 - b * h ^ 2 * sF ^ 2 * sma ^ 2 + b * h ^ 2 * sma ^ 2 + b * k ^ 2 * sF ^ 2 * sma ^ 2) * hb4
 
+
+
+/-- **the eccentric longitude is recovered exactly**: fed with the in-plane coordinates `eqe2eci` builds from `(cos F, sin F)`,
+the two arguments `eci2eqe` hands to `arctan2` are `(sin F, cos F)` themselves -/
+theorem eqe_F_inverse (sma h k beta cF sF : Rat) (ha : sma ≠ 0) (hb : beta * beta = 1 - h * h - k * k) (hb0 : beta ≠ 0) (hb1 : 1 + beta ≠ 0) :
+    let b := 1 / (1 + beta)
+    let X := sma * ((1 - h * h * b) * cF + h * k * b * sF - k)
+    let Y := sma * ((1 - k * k * b) * sF + h * k * b * cF - h)
+    eci2eqeF sma h k X Y beta = (sF, cF) := by
+  have hbb : h * h + k * k = (1 - beta) * (1 + beta) := by linear_combination hb
+  have hb3 : (1 / (1 + beta)) * (1 + beta) = 1 := by field_simp
+  have hb4 : (1 / (1 + beta)) * (h * h + k * k) = 1 - beta := by rw [hbb]; field_simp
+  simp only [eci2eqeF]
+  generalize (1 / (1 + beta)) = b at hb3 hb4 ⊢
+  refine Prod.ext ?_ ?_
+  · simp only; field_simp; linear_combination (h - sF) * hb4
+  · simp only; field_simp; linear_combination (k - cF) * hb4
+
+
+
+/-- **areal velocity from equinoctial elements**: with the in-plane coordinates and rates `eqe2eci` builds,
+`x ẏ − y ẋ = n a² √(1 − h² − k²)`, i.e. `‖r × v‖ = √(μ a (1 − e²))` -/
+theorem eqe2eci_areal (sma h k n beta cF sF rr : Rat) (hF : cF * cF + sF * sF = 1) (hb : beta * beta = 1 - h * h - k * k)
+    (hb1 : 1 + beta ≠ 0) (hrr : rr = sma * (1 - h * sF - k * cF)) (hr0 : rr ≠ 0) :
+    let b := 1 / (1 + beta)
+    let vt := n * (sma * sma) / rr
+    let x := sma * ((1 - h * h * b) * cF + h * k * b * sF - k)
+    let y := sma * ((1 - k * k * b) * sF + h * k * b * cF - h)
+    let xd := vt * (h * k * b * cF - (1 - h * h * b) * sF)
+    let yd := vt * ((1 - k * k * b) * cF - h * k * b * sF)
+    x * yd - y * xd = n * sma ^ 2 * beta := by
+  have hbb : h * h + k * k = (1 - beta) * (1 + beta) := by linear_combination hb
+  have hb3 : (1 / (1 + beta)) * (1 + beta) = 1 := by field_simp
+  have hb4 : (1 / (1 + beta)) * (h * h + k * k) = 1 - beta := by rw [hbb]; field_simp
+  simp only
+  generalize (1 / (1 + beta)) = b at hb3 hb4 ⊢
+  field_simp
+  linear_combination (-beta * n * sma ^ 2) * hrr + (-b * h ^ 2 * n * sma ^ 3 - b * k ^ 2 * n * sma ^ 3 + n * sma ^ 3) * hF
+    + (cF * k * n * sma ^ 3 + h * n * sF * sma ^ 3 - n * sma ^ 3) * hb4
+
+
 /-! ### anomalies -/
 
 /-- Kepler's equation is what the conversion evaluates -/
